@@ -14,6 +14,7 @@ package proxy
 
 import (
 	"fmt"
+	"runtime"
 	"strings"
 	"sync"
 	"testing"
@@ -37,12 +38,14 @@ const (
 
 // vfC04Driver is a minimal in-memory registry driver (serviceregistry.Registry).
 type vfC04Driver struct {
-	mu        sync.Mutex
-	instances map[string]*serviceregistry.ServiceInstanceSpec
-	notify    chan *serviceregistry.RegistryEvent // unbuffered: a send returns when the registry took the event
+	mu             sync.Mutex
+	instances      map[string]*serviceregistry.ServiceInstanceSpec
+	failing        bool // the backend call behind ListServiceInstances fails (transient outage)
+	failedListings int
+	notify         chan *serviceregistry.RegistryEvent // unbuffered: a send returns when the registry took the event
 }
 
-func (d *vfC04Driver) Name() string                                   { return vfC04RegistryName }
+func (d *vfC04Driver) Name() string                                  { return vfC04RegistryName }
 func (d *vfC04Driver) Notify() <-chan *serviceregistry.RegistryEvent { return d.notify }
 func (d *vfC04Driver) ApplyServiceInstances(map[string]*serviceregistry.ServiceInstanceSpec) error {
 	return nil
@@ -56,6 +59,10 @@ func (d *vfC04Driver) GetServiceInstance(serviceName, instanceID string) (*servi
 func (d *vfC04Driver) ListServiceInstances(serviceName string) (map[string]*serviceregistry.ServiceInstanceSpec, error) {
 	d.mu.Lock()
 	defer d.mu.Unlock()
+	if d.failing {
+		d.failedListings++
+		return nil, fmt.Errorf("vf: registry backend unreachable")
+	}
 	res := map[string]*serviceregistry.ServiceInstanceSpec{}
 	for k, v := range d.instances {
 		if v.ServiceName == serviceName {
@@ -80,13 +87,82 @@ func (d *vfC04Driver) set(m map[string]*serviceregistry.ServiceInstanceSpec) {
 	d.mu.Unlock()
 }
 
-func (d *vfC04Driver) send(ev *serviceregistry.RegistryEvent) error {
-	select {
-	case d.notify <- ev:
-		return nil
-	case <-time.After(vfC04BarrierTimeout):
-		return fmt.Errorf("registry goroutine did not take an event within %v", vfC04BarrierTimeout)
+func (d *vfC04Driver) setFailing(f bool) (failed int) {
+	d.mu.Lock()
+	defer d.mu.Unlock()
+	d.failing = f
+	failed, d.failedListings = d.failedListings, 0
+	return failed
+}
+
+// vfC04BlockedForever is the proof that a registry event can never be delivered, taken from one
+// atomic snapshot of all goroutines (runtime.Stack stops the world), not from a clock:
+//   - some goroutine sits in ServiceRegistry._handleRegistryEvent in state "chan send": the watcher
+//     channel it sends to is full (capacity 10) and, since the registry mutex is held there, no
+//     other event, lookup or watcher registration can make progress either;
+//   - every goroutine that reads watcher channels (ServerPool.watchServers.func*) is parked in
+//     "select". A goroutine parks only when none of its channels is ready and a later send wakes
+//     it directly (it would show as runnable), so none of their channels is the full one.
+//
+// Hence the full channel has no reader and never will. A dispatcher that is merely slow has a
+// reader that is running/runnable and the snapshot does not qualify.
+func vfC04BlockedForever() string {
+	buf := make([]byte, 4<<20)
+	buf = buf[:runtime.Stack(buf, true)]
+	var blocked string
+	readers, parked := 0, 0
+	for _, g := range strings.Split(string(buf), "\n\n") {
+		nl := strings.IndexByte(g, '\n')
+		if nl < 0 {
+			continue
+		}
+		head, body := g[:nl], g[nl:]
+		lb := strings.IndexByte(head, '[')
+		if lb < 0 {
+			continue
+		}
+		state := head[lb+1:]
+		if strings.Contains(body, "serviceregistry.(*ServiceRegistry)._handleRegistryEvent") && strings.HasPrefix(state, "chan send") {
+			blocked = head
+		}
+		if strings.Contains(body, "proxy.(*ServerPool).watchServers.func") {
+			readers++
+			if strings.HasPrefix(state, "select") {
+				parked++
+			}
+		}
 	}
+	if blocked != "" && readers == parked {
+		return fmt.Sprintf("%s is blocked in ServiceRegistry._handleRegistryEvent on a send to a full watcher channel while holding the registry mutex; all %d watcher-reading goroutines (ServerPool.watchServers) are parked in select, so nobody reads that channel", strings.TrimSuffix(blocked, ":"), readers)
+	}
+	return ""
+}
+
+// await waits for a hand-over / call to complete. A clock only paces the snapshots; the verdict
+// "never" comes from vfC04BlockedForever, an expired wait alone is inconclusive.
+func vfC04Await(done <-chan struct{}, what string) (proof string, err error) {
+	deadline := time.NewTimer(vfC04BarrierTimeout)
+	defer deadline.Stop()
+	tick := time.NewTicker(100 * time.Millisecond)
+	defer tick.Stop()
+	for {
+		select {
+		case <-done:
+			return "", nil
+		case <-tick.C:
+			if p := vfC04BlockedForever(); p != "" {
+				return p, nil
+			}
+		case <-deadline.C:
+			return "", fmt.Errorf("%s did not complete within %v and no proof of a permanent block", what, vfC04BarrierTimeout)
+		}
+	}
+}
+
+func (d *vfC04Driver) send(ev *serviceregistry.RegistryEvent) (proof string, err error) {
+	done := make(chan struct{})
+	go func() { d.notify <- ev; close(done) }() // stays behind only after a proven permanent block
+	return vfC04Await(done, "hand-over of a registry event")
 }
 
 // report replaces the content of the registry and returns once every pool that watches the
@@ -95,26 +171,26 @@ func (d *vfC04Driver) send(ev *serviceregistry.RegistryEvent) error {
 //     the (ignored) empty event behind a report has been taken, that report has been handed to
 //     every service watcher's channel;
 //   - the same content is reported vfC04Heartbeats times (a registry resync does exactly that);
-//     a watcher channel buffers 10 events, so when all hand-overs have returned the pool's
-//     goroutine has received at least two of them and therefore finished applying the first.
+//     a watcher channel buffers 10 events, so when all hand-overs have returned every watching
+//     pool's goroutine has received at least two of them and therefore finished applying the first.
 //
 // A pool that runs no watcher receives nothing and the hand-overs return at once: it is then
 // judged on the list it is still using.
-func (d *vfC04Driver) report(m map[string]*serviceregistry.ServiceInstanceSpec) error {
+func (d *vfC04Driver) report(m map[string]*serviceregistry.ServiceInstanceSpec) (proof string, err error) {
 	d.set(m)
 	for i := 0; i < vfC04Heartbeats; i++ {
 		replace := map[string]*serviceregistry.ServiceInstanceSpec{}
 		for k, v := range m {
 			replace[k] = v.DeepCopy()
 		}
-		if err := d.send(&serviceregistry.RegistryEvent{UseReplace: true, Replace: replace}); err != nil {
-			return err
+		if proof, err = d.send(&serviceregistry.RegistryEvent{UseReplace: true, Replace: replace}); proof != "" || err != nil {
+			return
 		}
-		if err := d.send(&serviceregistry.RegistryEvent{}); err != nil { // barrier
-			return err
+		if proof, err = d.send(&serviceregistry.RegistryEvent{}); proof != "" || err != nil { // barrier
+			return
 		}
 	}
-	return nil
+	return "", nil
 }
 
 func (r vfC04Report) asRegistryMap(p *vfC04Pool) map[string]*serviceregistry.ServiceInstanceSpec {
@@ -129,7 +205,8 @@ func (r vfC04Report) asRegistryMap(p *vfC04Pool) map[string]*serviceregistry.Ser
 	return out
 }
 
-// TestVerifC04Watcher: start-up order x reports delivered through the real watcher path.
+// TestVerifC04Watcher: start-up order x generations of the pool x reports delivered through the
+// real watcher path x transient listing failures.
 func TestVerifC04Watcher(t *testing.T) {
 	vf := vfBegin(t, "C04")
 	defer vf.End()
@@ -149,58 +226,108 @@ func TestVerifC04Watcher(t *testing.T) {
 		}
 		entity.InitWithRecovery(nil)
 		sr := entity.Instance().(*serviceregistry.ServiceRegistry)
-		defer sr.Close()
 		var sysCtrls sync.Map
 		sysCtrls.Store(serviceregistry.Kind, entity)
 		super := supervisor.NewMock(option.New(), nil, sync.Map{}, sysCtrls, nil, nil, false, nil, nil)
 
 		driver := &vfC04Driver{notify: make(chan *serviceregistry.RegistryEvent)}
 		registered := false
+		stuck := false // a permanent block was proven: nothing of this case can be shut down any more
 		register := func() {
 			if err := sr.RegisterRegistry(driver); err != nil {
 				rt.Fatalf("VF-INCONCLUSIVE RegisterRegistry: %v", err)
 			}
 			registered = true
 		}
-		defer func() {
-			if registered {
-				sr.DeregisterRegistry(vfC04RegistryName) // stops the registry's goroutine for this driver
+		// generations of the same Proxy spec that are open at the moment (a pipeline update builds the
+		// new generation first and closes the previous one afterwards; canary set-ups run two at once)
+		type gen struct {
+			id int
+			px *Proxy
+		}
+		var gens []gen
+		nextGen := 0
+		// guarded: call fn; a call that cannot return because the registry mutex is held by a
+		// dispatcher that is blocked for ever is reported with the proof
+		guarded := func(what string, fn func()) bool {
+			done := make(chan struct{})
+			go func() { fn(); close(done) }()
+			proof, err := vfC04Await(done, what)
+			if err != nil {
+				rt.Fatalf("VF-INCONCLUSIVE %v\n%s", err, m.history())
 			}
+			if proof != "" {
+				stuck = true
+				m.violation(rt, "discovery-dispatch-blocked-forever", "%s cannot complete: %s", what, proof)
+				return false
+			}
+			return true
+		}
+		defer func() {
+			if stuck {
+				return // goroutines of this case stay behind (they are blocked for ever by the defect found)
+			}
+			for _, g := range gens {
+				g := g
+				if !guarded(fmt.Sprintf("closing generation %d", g.id), func() { g.px.Close() }) {
+					return
+				}
+			}
+			if registered {
+				// stops the registry's goroutine for this driver
+				if !guarded("deregistering the registry driver", func() { sr.DeregisterRegistry(vfC04RegistryName) }) {
+					return
+				}
+			}
+			sr.Close()
 		}()
+		open := func() bool {
+			id := nextGen
+			var px *Proxy
+			var perr error
+			if !guarded(fmt.Sprintf("creating generation %d", id), func() { px, perr = vfC04NewProxySuper(super, m.yaml) }) {
+				return false
+			}
+			if perr != nil {
+				rt.Fatalf("VF-INCONCLUSIVE generator produced a spec that validation rejects: %v\n%s", perr, m.yaml)
+			}
+			nextGen++
+			gens = append(gens, gen{id, px})
+			m.logf("generation %d of the proxy created (%d open)", id, len(gens))
+			return true
+		}
 
 		// start-up order
 		driverFirst := rapid.Bool().Draw(rt, "registry-driver-up-before-pool")
-		var rep0 vfC04Report
 		if driverFirst {
-			rep0, _ = vfC04GenReport(rt, p, 0, nil, false)
+			rep0, _ := vfC04GenReport(rt, p, 0, nil, false)
 			p.steerReport(vf, &rep0)
 			driver.set(rep0.asRegistryMap(p))
 			register()
 			m.logf("registry driver registered before the pool, content %s", rep0)
+			// every first lookup returns rep0 (a watcher's initial event carries the same content)
+			p.cands, _ = vfC04ListsAfter(p, rep0)
+			p.lastReport = &rep0
 		} else {
 			m.logf("pool created while the registry driver is not registered yet (first lookup fails)")
 		}
-		px, err := vfC04NewProxySuper(super, m.yaml)
-		if err != nil {
-			rt.Fatalf("VF-INCONCLUSIVE generator produced a spec that validation rejects: %v\n%s", err, m.yaml)
-		}
-		defer px.Close() // runs before DeregisterRegistry: the pool's watcher is gone by then
-		m.px, p.sp = px, px.mainPool
-		if driverFirst {
-			// the first lookup returned rep0; nothing asynchronous is pending that could change it
-			// (the watcher's initial event carries the same content)
-			p.cands, _ = vfC04ListsAfter(p, rep0)
-			p.lastReport = &rep0
+		if !open() {
+			return
 		}
 		vf.Class(fmt.Sprintf("watch-first-lookup-failed=%v", !driverFirst))
 
 		nontrivial := false
-		delivered := 0
+		delivered, closedSince, reportsSinceClose := 0, false, 0
 		slot := 0
-		steps := rapid.IntRange(2, 6).Draw(rt, "steps")
+		steps := rapid.IntRange(3, 9).Draw(rt, "steps")
 		for i := 0; i < steps && !m.abandoned; i++ {
-			doReport := rapid.IntRange(0, 2).Draw(rt, "step-is-report") > 0 || (i == 1 && delivered == 0)
-			if doReport {
+			kind := rapid.SampledFrom([]string{"report", "report", "report", "report", "select", "select", "select",
+				"update", "update", "second", "close", "listing-fails"}).Draw(rt, "step")
+			if i == 1 && delivered == 0 {
+				kind = "report"
+			}
+			switch kind {
+			case "report":
 				rep, deriv := vfC04GenReport(rt, p, 0, p.lastReport, false)
 				p.steerReport(vf, &rep)
 				if !registered {
@@ -210,38 +337,109 @@ func TestVerifC04Watcher(t *testing.T) {
 					vf.Class("watch-report-after-failed-first-lookup")
 				}
 				before := p.cands
-				if err := driver.report(rep.asRegistryMap(p)); err != nil {
+				cands, _ := vfC04ListsAfter(p, rep)
+				m.logf("discovery reports %s (%s) to %d open generation(s) -> current list %s", rep, deriv, len(gens), vfC04Union(cands))
+				proof, err := driver.report(rep.asRegistryMap(p))
+				if err != nil {
 					rt.Fatalf("VF-INCONCLUSIVE %v\n%s", err, m.history())
 				}
-				cands, _ := vfC04ListsAfter(p, rep)
-				m.logf("discovery reports %s (%s) -> current list %s", rep, deriv, vfC04Union(cands))
+				if proof != "" {
+					stuck = true
+					m.violation(rt, "discovery-dispatch-blocked-forever", "the report above can never reach the pools: %s", proof)
+					return
+				}
 				m.classifyTransition(before, cands, "watch-")
 				p.cands, p.lastReport, p.replaced = cands, &rep, true
-				p.resetEpoch(false)
 				delivered++
-				vf.Class("watch-report-delivered", "watch-report-derivation="+deriv)
+				vf.Class("watch-report-delivered", "watch-report-derivation="+deriv, fmt.Sprintf("watch-report-to-generations=%d", len(gens)))
+				if closedSince {
+					reportsSinceClose++
+					vf.Class("watch-report-after-a-generation-was-closed")
+				}
 				// non-trivial: the list the statement asks for differs from the one in use before
 				if vfC04Union(before) != vfC04Union(cands) {
 					nontrivial = true
 				}
-				continue
-			}
-			k := rapid.IntRange(1, 6).Draw(rt, "k")
-			rec := vfC04NewRec(slot + k)
-			for j := 0; j < k; j++ {
-				r := vfC04GenReq(rt, 0)
-				o := vfC04Handle(px, p, r, rec, slot)
-				slot++
-				m.logf("select %s -> %s", r, o)
-				vf.Class("watch-selection", "watch-policy="+p.rawPolicy)
-				if delivered > 0 {
-					vf.Class("watch-selection-after-delivered-report")
+			case "listing-fails":
+				if !registered || p.lastReport == nil {
+					continue
 				}
-				// membership, no-server-only-if-empty, zero weight, no panic/error. Fairness and
-				// stickiness are not judged here: heartbeats of the same content may still be
-				// re-installing the (identical) list while requests run.
-				if !m.checkOutcome(rt, p, r, o, p.cands) {
-					break
+				// a resync during a transient backend outage: the registry cannot list the service, so
+				// nothing is reported and the list last reported stays the current one
+				driver.setFailing(true)
+				var proof string
+				var err error
+				for b := 0; b < vfC04Heartbeats && proof == "" && err == nil; b++ {
+					if proof, err = driver.send(&serviceregistry.RegistryEvent{UseReplace: true, Replace: p.lastReport.asRegistryMap(p)}); proof == "" && err == nil {
+						proof, err = driver.send(&serviceregistry.RegistryEvent{})
+					}
+				}
+				failed := driver.setFailing(false)
+				if err != nil {
+					rt.Fatalf("VF-INCONCLUSIVE %v\n%s", err, m.history())
+				}
+				if proof != "" {
+					stuck = true
+					m.violation(rt, "discovery-dispatch-blocked-forever", "resync events can never be handled: %s", proof)
+					return
+				}
+				m.logf("registry resync while the backend listing fails (%d failed listings): nothing reported, current list stays %s", failed, vfC04Union(p.cands))
+				if failed > 0 {
+					vf.Class("watch-listing-failed-during-dispatch")
+					nontrivial = nontrivial || vfC04Union(p.cands) != vfC04Union([][]vfC04Srv{p.static})
+				}
+			case "update", "second":
+				if len(gens) >= 3 {
+					continue
+				}
+				if !open() {
+					return
+				}
+				vf.Class(fmt.Sprintf("watch-generations-open=%d", len(gens)))
+				if kind == "second" {
+					continue
+				}
+				fallthrough
+			case "close":
+				if len(gens) < 2 {
+					continue
+				}
+				gi := 0 // an update closes the previous generation
+				if kind == "close" {
+					gi = rapid.IntRange(0, len(gens)-1).Draw(rt, "close-which")
+				}
+				g := gens[gi]
+				if !guarded(fmt.Sprintf("closing generation %d", g.id), func() { g.px.Close() }) {
+					return
+				}
+				gens = append(gens[:gi:gi], gens[gi+1:]...)
+				closedSince = true
+				m.logf("generation %d closed (%d still open)", g.id, len(gens))
+				vf.Class(fmt.Sprintf("watch-closed-one-generation-leaving=%d", len(gens)))
+			case "select":
+				// every open generation must be on the list last reported
+				k := rapid.IntRange(1, 4).Draw(rt, "k")
+				rec := vfC04NewRec(slot + k*len(gens))
+				for _, g := range gens {
+					for j := 0; j < k && !m.abandoned; j++ {
+						r := vfC04GenReq(rt, 0)
+						o := vfC04Handle(g.px, p, r, rec, slot)
+						slot++
+						m.logf("select generation=%d %s -> %s", g.id, r, o)
+						vf.Class("watch-selection", "watch-policy="+p.rawPolicy)
+						if delivered > 0 {
+							vf.Class("watch-selection-after-delivered-report")
+						}
+						if reportsSinceClose > 0 {
+							vf.Class("watch-selection-after-close-and-report")
+						}
+						// membership, no-server-only-if-empty, zero weight, no panic/error. Fairness and
+						// stickiness are not judged here: heartbeats of the same content may still be
+						// re-installing the (identical) list while requests run.
+						if !m.checkOutcome(rt, p, r, o, p.cands) {
+							return
+						}
+					}
 				}
 			}
 		}
